@@ -23,7 +23,6 @@ pub mod logger_handle {
     //@ fn src/logger_handle.rs impl LoggerHandle / fn set_new_spec
     //@   props C05
     //@   req[LoggerHandle::set_new_spec.pre.perm] forall|s: LogSpecification| #[trigger] WritersHandle::wset_ok(s) <==> s == new_spec
-    //@   closure 1 sig |e: FlexiLoggerError| -> (r: ())
     //@   ens[LoggerHandle::set_new_spec.post.written] self.active_after() == new_spec
     //@   count 1 .set_new_spec(
     //@   canary
